@@ -50,7 +50,20 @@ Definition known_class (p : list stmt) : Z :=
 
 Definition b2z (b : bool) : Z := if b then 1 else 0.
 
-(* [corr; clause ok; known class; model = spec (for statistics)] *)
+(* [corr; clause ok; known class; model = spec (for statistics)] - same values as
+   [corr c; b2z (clause c); known_class (c_prog c); ...], computed with shared sub-results *)
 Definition run (c : case) : list Z :=
-  [ corr c; b2z (clause c); known_class (c_prog c);
-    b2z (out_eqb (by_id (run_prog (c_prog c))) (by_id (fst (spec_run (c_prog c))))) ].
+  let sr := spec_run (c_prog c) in
+  let so := by_id (fst sr) in
+  let mo := by_id (run_prog (c_prog c)) in
+  let ev := snd sr in
+  match c_impl c with
+  | IReads l =>
+      [ b2z (out_eqb mo l); b2z (out_eqb so l);
+        (if ev_inner_update ev then 1 else if ev_soft_decl ev then 2 else if ev_each_alias ev then 3 else 0);
+        b2z (out_eqb mo so) ]
+  | _ =>
+      [ 0; 0;
+        (if ev_inner_update ev then 1 else if ev_soft_decl ev then 2 else if ev_each_alias ev then 3 else 0);
+        b2z (out_eqb mo so) ]
+  end.
